@@ -163,4 +163,14 @@ have been split into their own separate Python packages. These are:
 
 """
 
+import sys
+
 from vc2_conformance.version import __version__
+
+# VC-2 bitstreams may contain arbitrarily large (exp-Golomb coded) integers and
+# this software must be able to display them, for example when explaining a
+# conformance error or in the bitstream viewer. Since Python 3.11, integers
+# of more than 4300 digits cannot be converted to decimal strings by default
+# (a ValueError is raised instead); lift that limit.
+if hasattr(sys, "set_int_max_str_digits"):
+    sys.set_int_max_str_digits(0)
